@@ -9,6 +9,7 @@ import Qentem.Proofs.NumToStrExact
 import Qentem.Proofs.NumToStrIntClass32
 import Qentem.Proofs.NumToStrLayout
 import Qentem.Proofs.NumToStrDefault
+import Qentem.Proofs.NumToStrDefaultRound
 /-! C10 — number to text equals the reference formatting for every value and precision.
 
 Model: `Qentem.NumToStr` (transcription of `Digit.hpp`), reference: `Qentem.FmtSpec` (ISO C
@@ -263,6 +264,24 @@ theorem format_eq_spec_integers_default (pre : List Nat) (bits p : Nat) (hp : p 
         ≤ (if p = 0 then 1 else p)) :
     realToString f64 pre bits p fmtDefault = .ok (pre ++ FmtSpec.format64 bits p (specFmt fmtDefault)) :=
   Qentem.Proofs.NumToStr.default_small_int64 pre bits p j h hl hp
+
+/-- `format_eq_spec_integers_default_all`: **Default format (`%.{p}g`) for every integer-valued double**, in
+particular every |x| ≥ 2^52, precision ≤ 40.  With at most `P` digits the plain numeral is printed; with more,
+the value is rounded half-even to `P` significant digits — rounding digit against '5', sticky lower digits
+(including the digits the BigInt pipeline dropped), tie to even, carry over nines, carry out of the top digit —
+and printed as `d.ddde+XX` with trailing zeros removed: exactly the reference. -/
+theorem format_eq_spec_integers_default_all (pre : List Nat) (bits p : Nat) (hp : p ≤ 40) (h : IntegerValued64 bits) :
+    realToString f64 pre bits p fmtDefault = .ok (pre ++ FmtSpec.format64 bits p (specFmt fmtDefault)) := by
+  obtain ⟨j, hj⟩ := h
+  by_cases hl : (Qentem.Proofs.NumToStr.D (Qentem.Proofs.NumToStr.intValue64 ((bits / 2 ^ 52) % 2 ^ 11) (bits % 2 ^ 52))).length
+      ≤ (if p = 0 then 1 else p)
+  · exact Qentem.Proofs.NumToStr.default_small_int64 pre bits p j hj hl (by omega)
+  · exact Qentem.Proofs.NumToStr.default_big_int64 pre bits p j hp hj (by omega)
+
+/-- tests (kernel evaluation): 2^70 at 5 digits; 9.999999e22-ish carry; 250 at 1 digit (tie to even) -/
+example : realToString f64 [] 0x4450000000000000 5 fmtDefault = .ok [49, 46, 49, 56, 48, 54, 101, 43, 50, 49] := by
+  decide +kernel   -- 1.1806e+21
+example : realToString f64 [] 0x406F400000000000 1 fmtDefault = .ok [50, 101, 43, 48, 50] := by decide +kernel  -- 2e+02
 
 /-- the digit estimate of `realToString` is exactly the number of decimal digits of `2^e`, for every binary
 exponent a double or float can have -/
